@@ -620,3 +620,280 @@ func decideByOrderings(fn *ssa.Function, spec func([]int64) bool) (bool, string)
 	}
 	return true, ""
 }
+
+// ---------- GRD-time on the call graph: the query time reaches every time-filtered read ----------
+
+// valueRoots: the values v can be, followed through phis, single-store locals, conversions and closure bindings
+// (a free variable of a closure is resolved to what the enclosing function bound to it).
+func valueRoots(v ssa.Value) []ssa.Value {
+	var out []ssa.Value
+	seen := map[ssa.Value]bool{}
+	var rec func(x ssa.Value, depth int)
+	rec = func(x ssa.Value, depth int) {
+		if x == nil || seen[x] || depth > 12 {
+			return
+		}
+		seen[x] = true
+		switch y := x.(type) {
+		case *ssa.Phi:
+			for _, e := range y.Edges {
+				rec(e, depth+1)
+			}
+		case *ssa.Convert:
+			rec(y.X, depth+1)
+		case *ssa.ChangeType:
+			rec(y.X, depth+1)
+		case *ssa.UnOp:
+			if y.Op == token.MUL {
+				switch cell := y.X.(type) {
+				case *ssa.Alloc:
+					n := 0
+					for _, ref := range *cell.Referrers() {
+						if st, ok := ref.(*ssa.Store); ok && st.Addr == cell {
+							n++
+							rec(st.Val, depth+1)
+						}
+					}
+					if n > 0 {
+						return
+					}
+				case *ssa.FreeVar:
+					// the cell the parent bound: its stores in the parent
+					if par := cell.Parent().Parent(); par != nil {
+						idx := -1
+						for i, fv := range cell.Parent().FreeVars {
+							if fv == cell {
+								idx = i
+							}
+						}
+						for _, b := range par.Blocks {
+							for _, in := range b.Instrs {
+								if mc, ok := in.(*ssa.MakeClosure); ok && mc.Fn == cell.Parent() && idx >= 0 && idx < len(mc.Bindings) {
+									if al, ok := mc.Bindings[idx].(*ssa.Alloc); ok {
+										for _, ref := range *al.Referrers() {
+											if st, ok := ref.(*ssa.Store); ok && st.Addr == al {
+												rec(st.Val, depth+1)
+											}
+										}
+									} else {
+										rec(mc.Bindings[idx], depth+1)
+									}
+								}
+							}
+						}
+						return
+					}
+				}
+			}
+			out = append(out, x)
+		case *ssa.FreeVar:
+			if par := y.Parent().Parent(); par != nil {
+				idx := -1
+				for i, fv := range y.Parent().FreeVars {
+					if fv == y {
+						idx = i
+					}
+				}
+				for _, b := range par.Blocks {
+					for _, in := range b.Instrs {
+						if mc, ok := in.(*ssa.MakeClosure); ok && mc.Fn == y.Parent() && idx >= 0 && idx < len(mc.Bindings) {
+							rec(mc.Bindings[idx], depth+1)
+						}
+					}
+				}
+				return
+			}
+			out = append(out, x)
+		default:
+			out = append(out, x)
+		}
+	}
+	rec(v, 0)
+	return out
+}
+
+type tparam struct {
+	fn  *ssa.Function
+	idx int
+}
+
+// timeParams: the (function, parameter) pairs whose value reaches the query-time argument of the as-of filter
+// (isActiveAtTime), directly or through other such parameters — computed as a fixpoint over static calls.
+func timeParams(w *World) (map[tparam]bool, bool) {
+	act := w.FuncObj("pkg/core", "isActiveAtTime")
+	if act == nil {
+		return nil, false
+	}
+	afn := w.SSAFunc(act)
+	if afn == nil || len(afn.Params) != 3 {
+		return nil, false
+	}
+	tp := map[tparam]bool{{afn, 2}: true}
+	var fns []*ssa.Function
+	for _, fi := range w.ModuleFuncs() {
+		if fn := w.SSAFunc(fi.Obj); fn != nil {
+			fns = append(fns, fn)
+		}
+	}
+	for changed := true; changed; {
+		changed = false
+		for _, root := range fns {
+			for _, f := range append([]*ssa.Function{root}, closuresOf(root)...) {
+				for _, b := range f.Blocks {
+					for _, in := range b.Instrs {
+						c, ok := in.(*ssa.Call)
+						if !ok {
+							continue
+						}
+						g := c.Call.StaticCallee()
+						if g == nil {
+							continue
+						}
+						for q := range g.Params {
+							if !tp[tparam{g, q}] || q >= len(c.Call.Args) {
+								continue
+							}
+							for _, leaf := range valueRoots(c.Call.Args[q]) {
+								if p, ok := leaf.(*ssa.Parameter); ok {
+									for i, pp := range p.Parent().Params {
+										if pp == p && !tp[tparam{p.Parent(), i}] {
+											tp[tparam{p.Parent(), i}] = true
+											changed = true
+										}
+									}
+								}
+							}
+						}
+					}
+				}
+			}
+		}
+	}
+	return tp, true
+}
+
+// ruleGRDtime: a function that is given the query time hands that time to every time-filtered read it makes.
+func ruleGRDtime(w *World, r *Report) {
+	r.Doc("GRD-time", "a function that receives the query time (a parameter that reaches the as-of filter isActiveAtTime through the call graph) passes that same parameter to every call whose corresponding parameter reaches the filter too: forward and backward frontier, outgoing and incoming view all look at the same moment", 9)
+	tp, ok := timeParams(w)
+	if !ok {
+		r.Und("GRD-time", "anchor:isActiveAtTime", "", "anchor lost")
+		return
+	}
+	hasT := map[*ssa.Function][]int{}
+	for k := range tp {
+		hasT[k.fn] = append(hasT[k.fn], k.idx)
+	}
+	n := 0
+	for _, fi := range w.ModuleFuncs() {
+		root := w.SSAFunc(fi.Obj)
+		if root == nil || len(hasT[root]) == 0 {
+			continue
+		}
+		per := 0
+		for _, f := range append([]*ssa.Function{root}, closuresOf(root)...) {
+			for _, b := range f.Blocks {
+				for _, in := range b.Instrs {
+					c, ok := in.(*ssa.Call)
+					if !ok {
+						continue
+					}
+					g := c.Call.StaticCallee()
+					if g == nil {
+						continue
+					}
+					for q := range g.Params {
+						if !tp[tparam{g, q}] || q >= len(c.Call.Args) {
+							continue
+						}
+						per++
+						n++
+						has := false
+						for _, leaf := range valueRoots(c.Call.Args[q]) {
+							if p, ok := leaf.(*ssa.Parameter); ok && p.Parent() == root {
+								for _, i := range hasT[root] {
+									if root.Params[i] == p {
+										has = true
+									}
+								}
+							}
+						}
+						r.Cond(has, "GRD-time", fmt.Sprintf("%s:time-filtered-read#%d:%s", shortName(fi.Obj), per, g.Name()), w.Pos(c.Pos()), "the read receives the caller's query time", shortName(fi.Obj)+" is given the query time but calls "+g.Name()+" with a different time value: that side of the traversal sees the graph as of another moment — a time-travel query returns edges that did not exist then, or misses ones that did")
+					}
+				}
+			}
+		}
+	}
+	// (b) no call to a function that fixes the time itself ("as of now") from a function that is given the query time
+	fixes := map[*ssa.Function]string{} // function -> the time-filtered read it (transitively) makes with its own time
+	var all []*ssa.Function
+	for _, fi := range w.ModuleFuncs() {
+		if fn := w.SSAFunc(fi.Obj); fn != nil {
+			all = append(all, fn)
+		}
+	}
+	calls := func(root *ssa.Function, visit func(c *ssa.Call, g *ssa.Function)) {
+		for _, f := range append([]*ssa.Function{root}, closuresOf(root)...) {
+			for _, b := range f.Blocks {
+				for _, in := range b.Instrs {
+					if c, ok := in.(*ssa.Call); ok {
+						if g := c.Call.StaticCallee(); g != nil {
+							visit(c, g)
+						}
+					}
+				}
+			}
+		}
+	}
+	for _, root := range all {
+		calls(root, func(c *ssa.Call, g *ssa.Function) {
+			for q := range g.Params {
+				if !tp[tparam{g, q}] || q >= len(c.Call.Args) {
+					continue
+				}
+				own := false
+				for _, leaf := range valueRoots(c.Call.Args[q]) {
+					if p, ok := leaf.(*ssa.Parameter); ok && p.Parent() == root {
+						own = true
+					}
+				}
+				if !own {
+					fixes[root] = g.Name()
+				}
+			}
+		})
+	}
+	for changed := true; changed; {
+		changed = false
+		for _, root := range all {
+			if fixes[root] != "" {
+				continue
+			}
+			calls(root, func(c *ssa.Call, g *ssa.Function) {
+				if fixes[g] != "" && fixes[root] == "" && len(hasT[g]) == 0 {
+					fixes[root] = g.Name() + "→" + fixes[g]
+					changed = true
+				}
+			})
+		}
+	}
+	for _, fi := range w.ModuleFuncs() {
+		root := w.SSAFunc(fi.Obj)
+		if root == nil || len(hasT[root]) == 0 {
+			continue
+		}
+		seenG := map[*ssa.Function]bool{}
+		calls(root, func(c *ssa.Call, g *ssa.Function) {
+			if fixes[g] == "" || len(hasT[g]) > 0 || seenG[g] {
+				return
+			}
+			seenG[g] = true
+			r.Bad("GRD-time", fmt.Sprintf("%s:reads-as-of-now:%s", shortName(fi.Obj), g.Name()), w.Pos(c.Pos()), shortName(fi.Obj)+" is given the query time but calls "+g.Name()+", which reads edges at a time of its own choosing ("+fixes[g]+"): that part of the traversal sees the graph as it is now while the rest sees it as of the queried time — a time-travel query returns edges that did not exist then, or misses ones that did")
+		})
+		r.Ok("GRD-time", shortName(fi.Obj)+":no-read-as-of-now", w.Pos(fi.Decl.Pos()), "calls no function that fixes the read time itself")
+	}
+	r.Count("time_parameters", len(tp))
+	if n < 4 {
+		r.Und("GRD-time", "anchor:time-travel-reads", "", fmt.Sprintf("expected ≥4 time-filtered reads in functions that take the query time, found %d", n))
+	}
+}
